@@ -284,6 +284,20 @@ inline void Sweep::unified_neighbours()
          }
       }
    }
+   // literals spelled like the words the library knows (true, false, nullptr, default, int, ...), of types that are NOT the ones those
+   // words suggest: a literal's type is the type it was given, its spelling the word, whatever the word means elsewhere
+   {
+      const Type* lts[] = { &L.int_type(), &lex.get_qualified(Qualifiers(1), L.bool_type()), &lex.get_pointer(L.void_type()), &L.bool_type(), &L.nullptr_value().type(), &L.double_type(), &lex.get_as_type(lex.get_identifier(u8"nullptr_t")) };
+      std::size_t k = 0;
+      for (auto w : reserved_words) {
+         for (int j = 0; j < 3; ++j, ++k) {
+            const Type* t = lts[k % std::size(lts)];
+            auto& sp = lex.get_string(w);
+            const Literal* lt = j == 0 ? &lex.get_literal(*t, w) : j == 1 ? &lex.get_literal(*t, sp) : lex.make_literal(*t, w);
+            add_node(std::string(j == 2 ? "make_literal" : "get_literal") + "(spelled like a reserved word)", lt, Category_code::Literal, [lt, t, s = &sp](Ck& c) { c.type_is(*lt, *t, "given"); c.same("type operand", &lt->first(), t, A_OPERAND); c.same("string", &lt->string(), s); }, false);
+         }
+      }
+   }
    // spellings that are prefixes of one another, through every spelling-keyed constructor
    {
       const char* sp[] = { "ab", "abc", "a", "ab", "abd", "", "abc" };
